@@ -6,6 +6,7 @@ import (
 	"net/http"
 	"net/url"
 	"sort"
+	"strconv"
 	"strings"
 
 	"github.com/jub0bs/cors"
@@ -93,6 +94,7 @@ func originProbes(c *cors.Config, r R) []string {
 			nm := nearMisses(p)
 			out = append(out, nm[0], nm[2], nm[1])
 			out = append(out, nm[r.Intn(len(nm))], nm[r.Intn(len(nm))])
+			out = append(out, wrapPortOrigins(p)...)
 		}
 	}
 	return out
@@ -174,6 +176,20 @@ func genGoodPreflight(c *cors.Config, r R) reqT {
 		q.hdrs["Access-Control-Request-Private-Network"] = []string{"true"}
 	}
 	return q
+}
+
+// wrapPortOrigins: the origin a pattern denotes, with its port written modulo 2^64 / 2^32 (never allowed)
+func wrapPortOrigins(pat string) []string {
+	i := strings.LastIndexByte(pat, ':')
+	if i < 0 || strings.HasSuffix(pat, "]") || strings.Contains(pat[i:], "/") {
+		return nil
+	}
+	n, err := strconv.Atoi(pat[i+1:])
+	if err != nil {
+		return nil
+	}
+	base := strings.Replace(pat[:i], "://*.", "://sub.", 1)
+	return []string{base + ":" + addDecimal("18446744073709551616", n), base + ":" + strconv.Itoa(n+1<<32)}
 }
 
 func genRequest(c *cors.Config, r R) reqT {
